@@ -1294,7 +1294,7 @@ def info(verbose, single_file, root_path):
             current_dir = os.path.dirname(os.path.abspath(single_file[0]))
             while os.path.isdir(current_dir):
                 asc_mhl_folder_path = os.path.join(current_dir, ascmhl_folder_name)
-                if os.path.exists(asc_mhl_folder_path):
+                if os.path.isdir(asc_mhl_folder_path):
                     root_path = current_dir
                     break
                 parent_dir = os.path.dirname(current_dir)
